@@ -3,9 +3,9 @@
 import json, os
 HERE = os.path.dirname(os.path.dirname(os.path.abspath(__file__)))
 
-E1 = 'bounded exhaustive enumeration of input structures on the real library, lock-step dense reference model'
+E1 = 'bounded exhaustive enumeration of input structures on the real library, lock-step dense reference model; second tier: explicit-state search over call histories whose last event belongs to the property'
 E2 = 'explicit-state breadth-first search over call histories on the real library, monitors in every state'
-E3 = 'exhaustive exploration of every rank-decision sequence over the eps continuum (decision-point walk) x structure enumeration'
+E3 = 'exhaustive exploration of every rank-decision sequence over the eps continuum (decision-point walk) x structure enumeration; second tier: explicit-state search over call histories'
 
 CHECKS = {
  # id: (technique, level text, level note, design ref)
@@ -42,15 +42,15 @@ EM = 'bounded exhaustive enumeration of operand structures x finite menus (eps, 
 CHECKS.update({
  'C11': (EM, 'fast_matvec, dmrg_hadamard, amen_mv, amen_mm on all operand structures of order 1..4 (6 thorough) with rectangular distinct modes and singleton substitutions, ranks {1,2,4}x{1,3}, exact-rank and decaying cores, eps in {1e-12,1e-8,1e-4,1e-1}, seeds 0..2 (0..7), initial guess in {none, rank 1, rank 5, zero}, real and complex (DMRG): shape and error <= 10*eps.',
          'finite seed menu covered completely; python backend', '§5 C11'),
- 'C12': (EM, 'Every amen_solve configuration with <= 3 (4 thorough) deviations from the default over the axes order, sizes, system class (Laplacian, diagonally dominant, SPD), operator rank, rhs rank, eps, preconditioner {None,c,r}, local solver {direct, GMRES, BiCGSTAB}, initial guess, seed: dense residual <= 100*eps.',
-         'finite seed menu; python backend', '§5 C12'),
+ 'C12': (EM, 'Every amen_solve configuration with <= 3 (4 thorough) deviations from the default over the axes order, sizes, system class (Laplacian, diagonally dominant, SPD, non-symmetric convection-diffusion), operator rank, rhs rank, eps, preconditioner {None,c,r}, local solver {direct, GMRES, BiCGSTAB}, initial guess, seed; plus the full product class x solver x preconditioner x eps on large modes (12,10[,11]) and 12^3 systems that need several GMRES cycles: dense residual <= 100*eps. One known finding (BiCGSTAB local solver) is listed in known_findings.json.',
+         'finite seed menu; python backend; BiCGSTAB classes listed as a known finding (DESIGN §8)', '§5 C12, §8'),
  'C13': (EM, 'x/y, s/y, x/s, elementwise_divide(eps, preconditioner, starting_tensor) for y = 1+z*z in [1,5], orders 2..4 (5), sizes with singleton substitutions, x ranks 1..3, z ranks 1..2, seeds: |q*y-x| <= 100*eps|x|; x/s exact.',
          'finite seed menu', '§5 C13'),
  'C14': (EM + '; monitor on EVERY callback invocation', 'dmrg_cross and function_interpolate (uni-/multivariate) on all shapes over {2,3,4}^d, d=2,3, plus uneven / tiny / larger shapes, targets of exact TT rank 1..4 and a smooth function, eps in {1e-3,1e-6,1e-10}, seeds, start tensors of rank 1/3 (over-parameterised too): every index / value matrix handed to the user function is validated (shape M x d, column ranges / membership), result error <= 100*eps.',
          'finite seed menu', '§5 C14'),
 })
 CHECKS.update({
- 'C05': (E2, 'Depth-first explicit-state search over ALL histories of public calls (57 event templates: constructors/algebra/rounding/slicing/reshaping/solvers/in-place set_core, reduce_dims, watch) of depth 2 (quick) / 3 unmerged + 4 merged (thorough) from 5 initial pools; after EVERY transition the well-formedness predicate (cores 3-d/4-d, rank chain, boundary ranks, reported N/M/R/shape/is_ttm equal the cores, full().shape == M+N) is evaluated on EVERY live object.',
+ 'C05': (E2, 'Depth-first explicit-state search over ALL histories of public calls (65 event templates incl. every initial-guess argument position: constructors/algebra/rounding/slicing/reshaping/solvers/in-place set_core, reduce_dims, watch) of depth 2 (quick) / 3 unmerged + 4 merged on two pools (thorough) from 5 initial pools; after EVERY transition the well-formedness predicate (cores 3-d/4-d, rank chain, boundary ranks, reported N/M/R/shape/is_ttm equal the cores, full().shape == M+N) is evaluated on EVERY live object.',
          'partial-order reduction: from depth 2 an event involves the newest object or is in-place; same-dtype operands; objects larger than 2e4 entries are not densified', '§4.2, §5 C05'),
  'C06': (E2, 'Same search with the immutability monitor: frozen records (core values, version counters, R, N, M, dtype, core count) of every live object compared after every transition; every TT argument position of every entry point (operands and initial guesses) is filled from the pool; views stay views under replay so writes through a result into its source are seen.',
          'as C05', '§4.2, §5 C06'),
